@@ -77,6 +77,20 @@ pub fn run(only: &[String]) -> Vec<String> {
                     }
                 }
             }
+            if (want("EGraph::proven_proven_find_applied_id") || want("AppliedId::apply_slotmap_partial") || want("AppliedId::apply_slotmap") || want("AppliedId::new")) && nf[2] < 3 {
+                // canonicalise an invocation of class i whose arguments are a (partial) injective map from slots[i]
+                let eg2: EGraph<UL, ()> = EGraph::default();
+                for (j, e) in vecform(&forest).into_iter().enumerate() { eg2.unionfind_set(Id(j), e); }
+                let mut args = M::new();
+                for (n_, s) in slots[i].iter().enumerate() { if rng.next(4) != 0 { args.insert(*s, 10 + n_ as u32); } }
+                let inv = ProvenAppliedId { elem: AppliedId { id: Id(i), m: to_sm(&args) } };
+                let r = eg2.proven_proven_find_applied_id(&inv);
+                let (root, m) = resolve(&forest, i);
+                let mut e = M::new();
+                for (x, y) in &m { if let Some(z) = args.get(y) { e.insert(*x, *z); } }
+                let label = if only.len() == 1 { only[0].clone() } else { "EGraph::proven_proven_find_applied_id".to_string() };
+                if r.elem.id != Id(root) || from_sm(&r.elem.m) != from_sm(&to_sm(&e)) { nf[2] += 1; fails.push(format!("FAIL {} C13:find_applied_id.spec forest=[{}] find({} with arguments {:?}) got ({}, {:?}) expected ({}, {:?})", label, show(&forest), i, args, r.elem.id.0, from_sm(&r.elem.m), root, e)); }
+            }
             if want("EGraph::chain_pai") && nf[1] < 3 && forest[i].0 != i {
                 let v = vecform(&forest);
                 let p = forest[i].0;
